@@ -8,11 +8,13 @@ export GOFLAGS=-mod=mod GOPROXY=off GOSUMDB=off GOTOOLCHAIN=local
 cd $wt || exit 9
 git checkout -q -- . 
 demo=$(python3 -c "import json;print(json.load(open('$out/meta.json')).get('demo_dir','zz_demo_$mk'))")
+race=$(python3 -c "import json;print('-race' if '-race' in json.load(open('$out/meta.json')).get('demo_cmd','') else '')")
+[ -n "$race" ] && export CGO_ENABLED=1
 [ -f $wt/$demo/demo_test.go ] || { mkdir -p $wt/$demo; cp $out/demo_test.go $wt/$demo/demo_test.go; }
-go test -vet=off -count=1 ./$demo/ > /tmp/cs.clean.log 2>&1; clean=$?
+go test $race -vet=off -count=1 ./$demo/ > /tmp/cs.clean.log 2>&1; clean=$?
 git apply $out/patch.diff || { echo "patch does not apply"; exit 9; }
 go build ./engine/... ./builder/... ./context/... ./internal/... || { echo "does not build"; git checkout -q -- .; exit 9; }
-go test -vet=off -count=1 ./$demo/ > /tmp/cs.mut.log 2>&1; mut=$?
+go test $race -vet=off -count=1 ./$demo/ > /tmp/cs.mut.log 2>&1; mut=$?
 go test -vet=off -count=1 -timeout 20m -skip 'Test_lexer' $(go list ./... | grep -v zz_demo | grep -v test/plugin) > /tmp/cs.suite.log 2>&1; suite=$?
 git checkout -q -- .
 echo "demo on clean tree exit=$clean (want 0); demo with change exit=$mut (want != 0); suite (minus the 2 baseline failures) exit=$suite (want 0)"
